@@ -3,6 +3,7 @@ CONSTANTS
   TTLs = {4}
   Ticks = {3, 7}
   MaxOps = 5
+  StatusOnly = FALSE
   MaxTime = 14
 INVARIANTS TypeOK BoundToEntity
 CHECK_DEADLOCK FALSE
